@@ -175,42 +175,47 @@ syntax "gstrict" : tactic
 macro_rules
   | `(tactic| gstrict) => `(tactic|
       first
-        | exact G.nextOrError | exact G.expect _ | exact G.expectIdent
-        | apply_assumption
-        | (apply G.ite <;> gstrict))
+        | with_reducible exact G.nextOrError | with_reducible exact G.expect _
+        | with_reducible exact G.expectIdent
+        | with_reducible apply_assumption
+        | (with_reducible apply G.ite <;> gstrict))
 
 /-- closes `G false x` for terms without recursive loop calls -/
 syntax "gtac" : tactic
 macro_rules
   | `(tactic| gtac) => `(tactic|
       repeat (first
-        | exact G.pure _ | exact G.pure' _ | exact G.err _
-        | exact G.headIs _ | exact G.peekOk | exact G.loopFuel
-        | exact G.weaken G.nextOrError | exact G.weaken (G.expect _) | exact G.weaken G.expectIdent
-        | exact G.counters _ _ (fun _ => rfl)
-        | apply_assumption
-        | (apply G.weaken; apply_assumption)
-        | apply G.ite
-        | refine G.withFuel (fun _ => ?_)
-        | refine GN.bind_gn_g (by apply_assumption) (fun _ => ?_)
-        | apply G.bind_ff
-        | intro _
+        | with_reducible exact G.pure _ | with_reducible exact G.pure' _
+        | with_reducible exact G.err _
+        | with_reducible exact G.headIs _ | with_reducible exact G.peekOk
+        | with_reducible exact G.loopFuel
+        | with_reducible exact G.weaken G.nextOrError
+        | with_reducible exact G.weaken (G.expect _)
+        | with_reducible exact G.weaken G.expectIdent
+        | with_reducible apply_assumption
+        | (apply G.weaken; with_reducible apply_assumption)
+        | with_reducible apply G.ite
+        | with_reducible refine G.withFuel (fun _ => ?_)
+        | with_reducible refine GN.bind_gn_g (by with_reducible apply_assumption) (fun _ => ?_)
+        | with_reducible refine G.bind_ff ?_ (fun _ => ?_)
+        | dsimp only
         | split
-        | dsimp only))
+        | exact G.counters _ _ (fun _ => rfl)))
 
 /-- `GN n x` goals: loop bodies -/
 syntax "gntac" : tactic
 macro_rules
   | `(tactic| gntac) => `(tactic|
       repeat (first
-        | apply_assumption
-        | focus (refine G.toGN _ ?_; gtac; done)
-        | (dsimp only; done)
+        | with_reducible exact G.toGN _ (G.pure _) | with_reducible exact G.toGN _ (G.pure' _)
+        | with_reducible exact G.toGN _ (G.err _)
+        | with_reducible apply_assumption
+        | (refine G.toGN _ ?_; with_reducible apply_assumption)
+        | (refine G.toGN _ (G.weaken ?_); with_reducible apply_assumption)
+        | with_reducible apply GN.ite
+        | with_reducible refine GN.bind_strict (by gstrict) (fun _ => ?_)
+        | with_reducible refine GN.bind_weak (by gtac) (fun _ => ?_)
         | dsimp only
-        | apply GN.ite
-        | refine GN.bind_strict (by gstrict) ?_
-        | refine GN.bind_weak (by gtac) ?_
-        | intro _
         | split))
 
 section funs
@@ -326,19 +331,21 @@ theorem G.parseSubscript (C : Cfg) (e : Expr) : G true (parseSubscript C rec e) 
       simp only [okRes, Bool.false_eq_true, if_false] at hA
       have hB := G.subscriptSlice Hrec s1
       cases hBs : Parser.subscriptSlice rec s1 with
-      | err => simp [okRes]
+      | err => simp [okRes, hBs]
       | panic m => rw [hBs] at hB; simp [okRes] at hB
       | fuel => rw [hBs] at hB; simp [okRes] at hB
       | ok r s2 =>
         obtain ⟨sl, st, sp⟩ := r
+        simp only [hBs]
         rw [hBs] at hB
         simp only [okRes, Bool.false_eq_true, if_false] at hB
         have hC := G.expect Tok.rightBracket s2
         cases hCs : Parser.expect Tok.rightBracket s2 with
-        | err => simp [okRes]
+        | err => simp [okRes, hCs]
         | panic m => rw [hCs] at hC; simp [okRes] at hC
         | fuel => rw [hCs] at hC; simp [okRes] at hC
         | ok u s3 =>
+          simp only [hCs]
           rw [hCs] at hC
           simp only [okRes, if_true] at hC
           cases sl with
@@ -347,11 +354,139 @@ theorem G.parseSubscript (C : Cfg) (e : Expr) : G true (parseSubscript C rec e) 
             cases start with
             | some x => simp [okRes, P.bind_apply]; omega
             | none =>
-              obtain ⟨rfl, hcol⟩ := subscriptStart_none s s1 hAs
-              have := subscriptSlice_true s s2 false st sp hcol hBs
+              obtain ⟨h1, hcol⟩ := subscriptStart_none s s1 hAs
+              rw [h1] at hBs
+              have := subscriptSlice_true _ _ false st sp hcol hBs
               cases this
   refine G.ite ?_ ?_ <;> exact G.bind_tf (G.expect _) core
 
+theorem GN.identChain (C : Cfg) (ident : String) : ∀ n e, GN n (identChain C rec ident n e) := by
+  have hs := G.parseSubscript Hrec C
+  intro n
+  induction n with
+  | zero => intro e s hs; omega
+  | succ n ih =>
+    intro e
+    unfold Parser.identChain
+    gntac
+
+theorem G.parseIdent (C : Cfg) (ident : String) : G false (parseIdent C rec ident) := by
+  have hk := G.parseKwargs Hrec
+  have hc := GN.identChain Hrec C ident
+  unfold Parser.parseIdent
+  gtac
+
+theorem GN.mapLoop : ∀ n acc lit, GN n (mapLoop rec n acc lit) := by
+  intro n
+  induction n with
+  | zero => intro acc lit s hs; omega
+  | succ n ih =>
+    intro acc lit
+    unfold Parser.mapLoop
+    gntac
+
+theorem G.parseMap : G false (parseMap rec) := by
+  have hm := GN.mapLoop Hrec
+  unfold Parser.parseMap
+  gtac
+
+theorem G.parseListComprehension (C : Cfg) (e : Expr) : G false (parseListComprehension C rec e) := by
+  unfold Parser.parseListComprehension
+  gtac
+
+theorem GN.arrayLoop (C : Cfg) : ∀ n acc lit, GN n (arrayLoop C rec n acc lit) := by
+  have hl := G.parseListComprehension Hrec C
+  intro n
+  induction n with
+  | zero => intro acc lit s hs; omega
+  | succ n ih =>
+    intro acc lit
+    unfold Parser.arrayLoop
+    gntac
+
+theorem G.parseArray (C : Cfg) : G false (parseArray C rec) := by
+  have ha := GN.arrayLoop Hrec C
+  unfold Parser.parseArray
+  gtac
+
+omit Hrec in
+theorem GN.dottedNameLoop : ∀ n name, GN n (dottedNameLoop n name) := by
+  intro n
+  induction n with
+  | zero => intro name s hs; omega
+  | succ n ih =>
+    intro name
+    unfold Parser.dottedNameLoop
+    gntac
+
+omit Hrec in
+theorem G.dottedName : G false dottedName := by
+  have hd := GN.dottedNameLoop
+  unfold Parser.dottedName
+  gtac
+
+theorem GN.componentAttributes : ∀ n acc, GN n (componentAttributes rec n acc) := by
+  intro n
+  induction n with
+  | zero => intro acc s hs; omega
+  | succ n ih =>
+    intro acc
+    unfold Parser.componentAttributes
+    gntac
+
+theorem G.parseInlineComponentCall : G false (parseInlineComponentCall rec) := by
+  have hd := G.dottedName
+  have hc := GN.componentAttributes Hrec
+  unfold Parser.parseInlineComponentCall
+  gtac
+
+theorem G.parseOperand (op : BinaryOperator) (r : Nat) (lhs : Expr) :
+    G false (parseOperand rec op r lhs) := by
+  have h1 := G.parseTest Hrec
+  have h2 := G.parseFilter Hrec
+  cases op <;> (unfold Parser.parseOperand; gtac)
+
+theorem GN.prattLoop (C : Cfg) (m : Nat) : ∀ n lhs neg, GN n (prattLoop C rec m n lhs neg) := by
+  have hs := G.parseSubscript Hrec C
+  have ho := G.parseOperand Hrec
+  intro n
+  induction n with
+  | zero => intro lhs neg s hs; omega
+  | succ n ih =>
+    intro lhs neg
+    unfold Parser.prattLoop
+    gntac
+
+theorem G.parsePrefix (C : Cfg) : G true (parsePrefix C rec) := by
+  have h1 := G.parseIdent Hrec C
+  have h2 := G.parseInlineComponentCall Hrec
+  have h3 := G.parseMap Hrec
+  have h4 := G.parseArray Hrec C
+  unfold Parser.parsePrefix
+  refine G.bind_tf G.nextOrError (fun t => ?_)
+  gtac
+
+theorem G.parseExprBp (C : Cfg) (m : Nat) : G true (parseExprBp C rec m) := by
+  have hl := GN.prattLoop Hrec C m
+  unfold Parser.parseExprBp
+  refine G.bind_tf (G.parsePrefix Hrec C) (fun lhs => ?_)
+  gtac
+
 end funs
+
+theorem G.innerParseExpression (C : Cfg) : ∀ b m, G true (innerParseExpression C b m) := by
+  intro b
+  induction b with
+  | zero => intro m; exact G.err _
+  | succ b ih => intro m; exact G.parseExprBp ih C m
+
+/-- **Totality of the model**: on every token list the parser model answers `ok` or `err`: the
+iteration budgets of its loops always suffice and the `expect` of `parse_subscript` cannot fire. -/
+theorem parseExpression_total (C : Cfg) (maxDepth depth : Nat) (toks : List Tok) :
+    parseExpression C maxDepth depth toks ≠ .fuel
+    ∧ ∀ site, parseExpression C maxDepth depth toks ≠ .panic site := by
+  have h := G.innerParseExpression C (maxDepth - depth) 0 ⟨toks, 0, 0⟩
+  unfold parseExpression
+  cases hr : innerParseExpression C (maxDepth - depth) 0 ⟨toks, 0, 0⟩ <;> simp_all [okRes]
 
 end Tera.Parser
